@@ -128,10 +128,50 @@ def user_failure(sy, sx, ty, tx):
     return None
 
 
+def delta_failure(radius, ro, delta, shape):
+    """RadialGradientBackgroundSubtraction with a transition width other than the default"""
+    p = pat.RadialGradientBackgroundSubtraction(radius=radius, radius_outer=ro, delta=delta, search=ro + 1)
+    m = np.asarray(p.get_mask(shape), dtype=np.float64)
+    cy, cx = shape[0] // 2, shape[1] // 2
+    yy, xx = np.mgrid[0:shape[0], 0:shape[1]]
+    r = np.hypot(yy - cy, xx - cx)
+    fail = None
+    if m.shape != tuple(shape) or not np.isfinite(m).all():
+        fail = 'shape / finiteness'
+    elif m.max() > 1 + 1e-12:
+        fail = 'mask exceeds 1: %.6g' % m.max()
+    elif np.abs(m[r > ro + 1]).max(initial=0) > 1e-12:
+        fail = 'mask is non-zero beyond radius_outer + 1'
+    elif not np.allclose(m[(r < radius - delta / 2)], (r / radius)[(r < radius - delta / 2)], atol=1e-12):
+        fail = 'mask is not r / radius inside radius - delta/2'
+    elif not np.allclose(m[(r >= radius + delta / 2) & (r <= ro)], -1.0):
+        fail = 'mask is not -1 on the ring [radius + delta/2, radius_outer]'
+    return fail
+
+
+def requery_failure(desc, shapes, order):
+    """a pattern object queried for several shapes in the given order -- after polar maps for the same geometries have been scaled in place
+    by the caller -- returns what a fresh object returns"""
+    pattern = cl.pattern_from_desc(desc)
+    ref = {s: np.array(cl.pattern_from_desc(desc).get_mask(s), copy=True) for s in shapes}
+    for s in shapes:
+        for pm in (masks.polar_map(s[1] // 2, s[0] // 2, s[1], s[0]), masks.polar_map(centerX=s[1] // 2, centerY=s[0] // 2, imageSizeX=s[1], imageSizeY=s[0])):
+            pm[0][...] = pm[0] * 0.4 + 1.0
+        pattern.get_mask(s)
+    for s in order:
+        if not np.array_equal(pattern.get_mask(s), ref[s], equal_nan=True) or not np.array_equal(pattern.get_template(s), np.fft.rfft2(ref[s]), equal_nan=True):
+            return 'pattern re-queried for shape %s gives a different mask/template than a fresh object' % (s,)
+    return None
+
+
 def replay(body):
     a = body['args']
     if body.get('call') == 'UserTemplate.get_mask':
         fail = user_failure(*a['source'], *a['target'])
+    elif body.get('kind') == 'history':
+        fail = requery_failure(a['pattern'], [tuple(x) for x in a['shapes']], [tuple(x) for x in a.get('order', a['shapes'])])
+    elif 'delta' in a:
+        fail = delta_failure(a['radius'], a['radius_outer'], a['delta'], tuple(a['shape']))
     elif body.get('call') == 'constructor':
         fail = guards_failure(np.random.default_rng(a.get('seed', 0)))
     else:
@@ -312,22 +352,7 @@ def run(ctx):
         ro = radius + float(rng.choice([2.0, 3.0, 4.5]))
         delta = float(rng.choice([0.5, 2.0, 3.0, 1.5]))
         shape = (int(rng.integers(2 * int(ro) + 6, 60)), int(rng.integers(2 * int(ro) + 6, 60)))
-        p = pat.RadialGradientBackgroundSubtraction(radius=radius, radius_outer=ro, delta=delta, search=ro + 1)
-        m = np.asarray(p.get_mask(shape), dtype=np.float64)
-        cy, cx = shape[0] // 2, shape[1] // 2
-        yy, xx = np.mgrid[0:shape[0], 0:shape[1]]
-        r = np.hypot(yy - cy, xx - cx)
-        fail = None
-        if m.shape != shape or not np.isfinite(m).all():
-            fail = 'shape / finiteness'
-        elif m.max() > 1 + 1e-12:
-            fail = 'mask exceeds 1: %.6g' % m.max()
-        elif np.abs(m[r > ro + 1]).max(initial=0) > 1e-12:
-            fail = 'mask is non-zero beyond radius_outer + 1'
-        elif not np.allclose(m[(r < radius - delta / 2)], (r / radius)[(r < radius - delta / 2)], atol=1e-12):
-            fail = 'mask is not r / radius inside radius - delta/2'
-        elif not np.allclose(m[(r >= radius + delta / 2) & (r <= ro)], -1.0):
-            fail = 'mask is not -1 on the ring [radius + delta/2, radius_outer]'
+        fail = delta_failure(radius, ro, delta, shape)
         ctx.count(1, key=('delta', radius, ro, delta, shape))
         if fail:
             fail = 'RadialGradientBackgroundSubtraction(radius=%s, radius_outer=%s, delta=%s) on shape %s: %s' % (radius, ro, delta, shape, fail)
@@ -341,18 +366,10 @@ def run(ctx):
         # neighbours that share the shape of their real FFT (same height, widths 2k and 2k+1) and transposes
         shapes += [(shapes[0][0], shapes[0][1] ^ 1), (shapes[1][0], shapes[1][1] ^ 1), (shapes[0][1], shapes[0][0])]
         shapes = [sh for sh in shapes if min(sh) >= 1]
-        ref = {s: np.array(cl.pattern_from_desc(desc).get_mask(s), copy=True) for s in shapes}
-        # arrays handed out by the library belong to the caller: scaling a polar map obtained for the same geometry (both calling
-        # conventions) or a mask in place must not change what a later query returns
-        for s in shapes:
-            for pm in (masks.polar_map(s[1] // 2, s[0] // 2, s[1], s[0]), masks.polar_map(centerX=s[1] // 2, centerY=s[0] // 2, imageSizeX=s[1], imageSizeY=s[0])):
-                pm[0][...] = pm[0] * 0.4 + 1.0
-            pattern.get_mask(s)       # (masks returned by a pattern may be its own state: they are not modified here)
-        for s in [shapes[i] for i in rng.permutation(len(shapes))] + shapes[::-1] + shapes:
-            if not np.array_equal(pattern.get_mask(s), ref[s], equal_nan=True) or not np.array_equal(pattern.get_template(s), np.fft.rfft2(ref[s]), equal_nan=True):
-                ctx.violation('input', 'pattern re-queried for shape %s gives a different mask/template than a fresh object' % (s,),
-                              {'kind': 'history', 'call': 'get_mask', 'args': {'pattern': desc, 'shapes': shapes}})
-                break
+        order = [shapes[i] for i in rng.permutation(len(shapes))] + shapes[::-1] + shapes
+        fail = requery_failure(desc, shapes, order)
+        if fail:
+            ctx.violation('input', fail, {'kind': 'history', 'call': 'get_mask', 'args': {'pattern': desc, 'shapes': [list(x) for x in shapes], 'order': [list(x) for x in order]}, 'failure': fail})
         ctx.count(10)
     return ctx.finish(
         LEVEL,
